@@ -142,6 +142,12 @@ class World:
             # two long token-factory denoms that share head and tail (same sub-denom, different creators)
             denom_pool = ["factory/aura1fqj2redmssckrdeekhkcvd2kzp9f4nks4fctrt/uhalo",
                           "factory/aura1uh24g2lc8hvvkaaf7awz25lrh5fptthu2dhq0n/uhalo"] + denom_pool
+        self.glued = False
+        if rng_.random() < 0.15:
+            # three denoms whose names glue together ambiguously: "uaura"+"uaurau" == "uaurau"+"aurau"
+            denom_pool = ["uaura", "uaurau", "aurau"] + [d for d in denom_pool if d != "uaura"]
+            n_native = max(n_native, 3)
+            self.glued = True
         self.natives = [("n", d) for d in denom_pool[:n_native]]
         self.decimals = {}
         srv.reset_log()
@@ -161,6 +167,13 @@ class World:
         for d in self.addr_denoms:
             for a in ("attacker", "owner", "lp1", "trader1"):
                 bals.append([a, d, str(BAL)])
+        # junk coins held by the attacker only (not tracked in the ledger: they can only ever be given away):
+        #  - 34 denoms that sort before every traded denom, to pad `funds` beyond 30 entries
+        #  - a digit-leading coin per native denom whose printed form "<amount><denom>" reads like a larger amount of that denom
+        self.junk_denoms = ["a%02d" % i for i in range(34)]
+        self.digit_denoms = dict((d, "000" + d) for _, d in self.natives)
+        for d in self.junk_denoms + sorted(self.digit_denoms.values()):
+            bals.append(["attacker", d, str(BAL)])
         r = srv.send({"op": "new", "balances": bals})
         self.codes = r["v"]
         self.factory = self._inst("factory", "owner", {"pair_code_id": self.codes["pair"], "token_code_id": self.codes["cw20"]}, admin="owner")
@@ -239,6 +252,8 @@ class World:
         if len(T) > 3:
             extra += [(T[3], T[2]), (N[0], T[3])]
         rng.shuffle(extra)
+        if self.glued:
+            plan.append((N[1], N[2]))      # uaura -> uaurau -> aurau is a route
         seen = set(frozenset(p) for p in plan)
         for e in extra[:rng.choice([0, 1, 2, 2, 3, 3])]:
             if frozenset(e) not in seen:
